@@ -18,13 +18,13 @@ TraceStep ==
     /\ l <= Len(Tr)
     /\ l' = l + 1
     /\ \/ ev.op = "reset" /\ a' = <<>> /\ b' = <<>> /\ bl' = FALSE /\ it' = NIL
-       \/ ev.op = "insert" /\ OpInsert(ev.args[1])
-       \/ ev.op = "remove" /\ OpRemove(ev.args[1])
+       \/ ev.op = "insert" /\ OpInsert(ev.args[1], ev.args[2])
+       \/ ev.op = "remove" /\ OpRemove(ev.args[1], ev.args[2])
        \/ ev.op = "remove_own" /\ OpRemoveOwn(ev.args[1])
-       \/ ev.op = "fill" /\ OpFill(ev.args[1], ev.args[2], ev.args[3])
+       \/ ev.op = "fill" /\ OpFill(ev.args[1], ev.args[2], ev.args[3], ev.args[4])
        \/ ev.op = "done" /\ OpDone
-       \/ ev.op = "find" /\ OpFind(ev.args[1])
-       \/ ev.op = "contains" /\ OpContains(ev.args[1])
+       \/ ev.op = "find" /\ OpFind(ev.args[1], ev.args[2])
+       \/ ev.op = "contains" /\ OpContains(ev.args[1], ev.args[2])
        \/ ev.op = "count" /\ OpCount
        \/ ev.op = "to_array" /\ OpToArray
        \/ ev.op = "iter_new" /\ OpIterNew
